@@ -74,6 +74,15 @@ def run_cases(modname, fname, cases, timeout_s=5.0, nproc=None, chunk=None):
         with ProcessPoolExecutor(nproc) as ex:
             for res in ex.map(_run_chunk, [(modname, fname, c, timeout_s) for c in chunks]):
                 out.extend(res)
+        # a watchdog that fires on a loaded machine says nothing about the code: cases that timed out are run again,
+        # a few at a time with ten times the limit; only a case that still does not answer is reported as a hang
+        late = [i for i, r in enumerate(out) if r.get("timeout")]
+        if late and len(late) <= 2000:
+            with ProcessPoolExecutor(min(4, nproc)) as ex:
+                redo = list(ex.map(_run_chunk, [(modname, fname, [cases[i]], max(60.0, 10 * timeout_s)) for i in late]))
+            for i, r in zip(late, redo):
+                out[i] = r[0]
+                out[i]["retried_after_timeout"] = True
         return out
     except BrokenProcessPool:
         # a worker died (segfault, os._exit): isolate case by case
